@@ -141,6 +141,103 @@ class Aborted(BaseException):
     pass
 
 
+class SimLock:
+    """Lock whose blocking is decided by the scheduler.
+
+    The library under test has no locks, but a repair may add one. A real lock would wedge the
+    simulation (the baton holder blocks on a lock owned by a parked thread); this one parks the
+    waiter and hands the baton to a runnable thread instead, and reports a deadlock when nobody
+    can run."""
+
+    def __init__(self, sched, reentrant=False):
+        self.sched = sched
+        self.reentrant = reentrant
+        self.owner = None
+        self.count = 0
+
+    def _me(self):
+        return self.sched.idents.get(threading.get_ident(), "main")
+
+    def acquire(self, blocking=True, timeout=-1):
+        me = self._me()
+        if self.reentrant and self.owner == me:
+            self.count += 1
+            return True
+        while self.owner is not None:
+            if not blocking or me == "main":
+                return False
+            self.sched.block_on(me, self)
+        self.owner = me
+        self.count = 1
+        return True
+
+    def release(self):
+        if self.owner is None:
+            raise RuntimeError("release unlocked lock")
+        self.count -= 1
+        if self.count <= 0:
+            self.owner = None
+            self.count = 0
+
+    def locked(self):
+        return self.owner is not None
+
+    def __enter__(self):
+        self.acquire()
+        return self
+
+    def __exit__(self, *a):
+        self.release()
+        return False
+
+
+class _ThreadingProxy:
+    """Stands in for the `threading` module inside xsdata modules: locks become SimLocks."""
+
+    def __init__(self, sched):
+        self._sched = sched
+
+    def Lock(self):
+        return SimLock(self._sched)
+
+    def RLock(self):
+        return SimLock(self._sched, reentrant=True)
+
+    def __getattr__(self, item):
+        return getattr(threading, item)
+
+
+def install_sim_locks(sched):
+    """Make every lock the library (or a repair of it) owns or creates scheduler-aware."""
+    import _thread
+
+    lock_types = (type(_thread.allocate_lock()), type(threading.RLock()))
+    proxy = _ThreadingProxy(sched)
+    replaced = 0
+    for name, mod in list(sys.modules.items()):
+        if mod is None or not name.startswith("xsdata"):
+            continue
+        for attr, val in list(vars(mod).items()):
+            if val is threading:
+                setattr(mod, attr, proxy)
+                replaced += 1
+            elif val is threading.Lock or val is _thread.allocate_lock:
+                setattr(mod, attr, proxy.Lock)
+                replaced += 1
+            elif val is threading.RLock:
+                setattr(mod, attr, proxy.RLock)
+                replaced += 1
+            elif isinstance(val, lock_types):
+                setattr(mod, attr, SimLock(sched, reentrant=isinstance(val, lock_types[1])))
+                replaced += 1
+            elif isinstance(val, type) and getattr(val, "__module__", None) == name:
+                for cattr, cval in list(vars(val).items()):
+                    if isinstance(cval, lock_types):
+                        setattr(val, cattr, SimLock(sched, reentrant=isinstance(cval, lock_types[1])))
+                        replaced += 1
+    return replaced
+
+
 class Scheduler:
     def __init__(self, nthreads, rng=None, schedule=None, p_preempt=0.3, loc_cap=2, max_switches=64, step_cap=5_000_000, hot=(), p_hot=0.9):
         self.n = nthreads
@@ -160,6 +257,8 @@ class Scheduler:
         self.max_switches = max_switches
         self.step_cap = step_cap
         self.loc_hits = {}
+        self.blocked = {}
+        self.lock_waits = 0
         self.nswitch = 0
         self.idents = {}
         self.suppress = 0
@@ -184,7 +283,42 @@ class Scheduler:
         return {"start": self.start, "switches": [list(s) for s in self.rec_switches], "finish": {str(k): v for k, v in self.rec_finish.items()}}
 
     def runnable(self, exclude=None):
-        return [i for i in range(self.n) if not self.done[i] and i != exclude]
+        return [i for i in range(self.n) if not self.done[i] and i != exclude and not self._is_blocked(i)]
+
+    def _is_blocked(self, i):
+        lock = self.blocked.get(i)
+        if lock is None:
+            return False
+        if lock.owner is None:
+            del self.blocked[i]
+            return False
+        return True
+
+    def block_on(self, t, lock):
+        """Thread t cannot take `lock`: park it and run somebody who can make progress."""
+        k = self.ycount[t]
+        self.ycount[t] = k + 1
+        self.steps += 1
+        self.blocked[t] = lock
+        others = self.runnable(t)
+        if not others:
+            self.aborted = "deadlock"
+            self.main_sem.release()
+            self.sems[t].acquire()
+            raise Aborted()
+        if self.explicit:
+            to = self.sw.get((t, k))
+            if to is None or to not in others:
+                to = others[0]
+        else:
+            to = others[self.rng.randrange(len(others))]
+        self.lock_waits += 1
+        self.rec_switches.append((t, k, to))
+        self.trace.append((self.steps, t, "<lock>", to))
+        self.current = to
+        self.sems[to].release()
+        self.sems[t].acquire()
+        self.blocked.pop(t, None)
 
     def yield_point(self, t, loc):
         k = self.ycount[t]
@@ -231,6 +365,8 @@ class Scheduler:
         self.done[t] = True
         others = self.runnable()
         if not others:
+            if not all(self.done):
+                self.aborted = "deadlock"  # the remaining threads all wait for locks nobody will release
             self.main_sem.release()
             return
         if self.explicit:
@@ -311,6 +447,78 @@ class CoverageCollector:
         for code in self.codes:
             mon.set_local_events(tool, code, 0)
         mon.free_tool_id(tool)
+
+
+class WriteRecorder:
+    """Records where attributes of long-lived library objects are assigned after construction.
+
+    Class-level __setattr__ hooks on the classes whose instances are shared between callers
+    (context, cached metadata, parser/serializer tools and their configs, the converter factory
+    and converters). Used in the reference pass only, never while threads are simulated."""
+
+    def __init__(self):
+        self.locs = set()
+        self.patched = []
+
+    def shared_classes(self):
+        from xsdata.formats import converter as conv
+        from xsdata.formats.dataclass import context, parsers, serializers
+        from xsdata.formats.dataclass.models import elements
+        from xsdata.formats.dataclass.parsers import bases, config as pconfig, mixins
+        from xsdata.formats.dataclass.serializers import config as sconfig, mixins as smixins
+
+        classes = [context.XmlContext, elements.XmlMeta, elements.XmlVar, pconfig.ParserConfig, sconfig.SerializerConfig,
+                   mixins.PushParser, bases.NodeParser, parsers.DictDecoder, smixins.EventGenerator, serializers.DictEncoder,
+                   serializers.PycodeSerializer, conv.ConverterFactory, conv.Converter]
+        out = []
+        seen = set()
+        stack = list(classes)
+        while stack:
+            c = stack.pop()
+            if c in seen:
+                continue
+            seen.add(c)
+            out.append(c)
+            try:
+                stack.extend(c.__subclasses__())
+            except TypeError:
+                pass
+        return out
+
+    def install(self):
+        locs = self.locs
+
+        def make(cls):
+            orig = cls.__dict__.get("__setattr__")
+            base_setattr = cls.__setattr__
+
+            def rec_setattr(self, name, value):
+                f = sys._getframe(1)
+                code = f.f_code
+                if not (code.co_name in ("__init__", "__post_init__", "__new__") and f.f_locals.get("self") is self):
+                    if "/xsdata/" in code.co_filename:
+                        locs.add(short_loc(code, f.f_lineno))
+                base_setattr(self, name, value)
+
+            cls.__setattr__ = rec_setattr
+            self.patched.append((cls, orig))
+
+        for cls in self.shared_classes():
+            try:
+                make(cls)
+            except TypeError:
+                pass
+
+    def uninstall(self):
+        for cls, orig in reversed(self.patched):
+            try:
+                if orig is None:
+                    del cls.__setattr__
+                else:
+                    cls.__setattr__ = orig
+            except (TypeError, AttributeError):
+                pass
+        self.patched = []
 
 
 class StepCounter:
